@@ -141,12 +141,13 @@ theorem sysfsStat_short (univ : Bool) (vs : List Nat) (h : vs.length < 10) (hne 
 /-- no file called `stat` in any directory of these trees -/
 def NoStat (ds : List SysDir) : Prop := ∀ e ∈ walkList ds, e.2.lookup statName = none
 
-def statEntry (e : Bytes × List (Bytes × Bytes)) : Option (Bytes × Bytes) :=
-  (e.2.lookup sysfsCfg.statName).map fun c => (e.1, c)
+def statEntry (nr : Option (Nat × Nat)) (e : Bytes × List (Bytes × Bytes)) : Option (Bytes × Bytes) :=
+  (e.2.lookup sysfsCfg.statName).map fun c => (mapName nr e.1, c)
 
 theorem statName_cfg : sysfsCfg.statName = statName := rfl
 
-theorem entries_noStat (ds : List SysDir) (h : NoStat ds) : (walkList ds).filterMap statEntry = [] := by
+theorem entries_noStat (nr : Option (Nat × Nat)) (ds : List SysDir) (h : NoStat ds) :
+    (walkList ds).filterMap (statEntry nr) = [] := by
   rw [List.filterMap_eq_nil_iff]
   intro e he
   simp [statEntry, statName_cfg, h e he]
@@ -164,8 +165,9 @@ theorem lookup_append_stat (others : List (Bytes × Bytes)) (c : Bytes) (h : oth
       simp only [List.cons_append, List.lookup, hk]
       exact ih h
 
-theorem statEntry_stat (n : Bytes) (others : List (Bytes × Bytes)) (c : Bytes)
-    (h : others.lookup statName = none) : statEntry (n, others ++ [(statName, c)]) = some (n, c) := by
+theorem statEntry_stat (nr : Option (Nat × Nat)) (n : Bytes) (others : List (Bytes × Bytes)) (c : Bytes)
+    (h : others.lookup statName = none) :
+    statEntry nr (n, others ++ [(statName, c)]) = some (mapName nr n, c) := by
   simp [statEntry, statName_cfg, lookup_append_stat others c h]
 
 /-- text of the `stat` file of a device known by its `Rec` -/
@@ -173,9 +175,10 @@ def statText : Rec → Bytes
   | .full s ext => renderStat s ext
   | _ => []
 
-theorem entries_part (p : SysPart) (ho : p.others.lookup statName = none) (ha : NoStat p.attrs) :
-    (partDir p).walk.filterMap statEntry = [(sysName p.name, renderStat p.s p.ext)] := by
-  rw [partDir, walk_node, List.filterMap_cons, statEntry_stat _ _ _ ho, entries_noStat p.attrs ha]
+theorem entries_part (nr : Option (Nat × Nat)) (p : SysPart) (ho : p.others.lookup statName = none)
+    (ha : NoStat p.attrs) :
+    (partDir p).walk.filterMap (statEntry nr) = [(mapName nr (sysName p.name), renderStat p.s p.ext)] := by
+  rw [partDir, walk_node, List.filterMap_cons, statEntry_stat nr _ _ _ ho, entries_noStat nr p.attrs ha]
 
 structure SysDiskWF (d : SysDisk) : Prop where
   files : d.others.lookup statName = none
@@ -183,51 +186,60 @@ structure SysDiskWF (d : SysDisk) : Prop where
   partFiles : ∀ p ∈ d.parts, p.others.lookup statName = none
   partAttrs : ∀ p ∈ d.parts, NoStat p.attrs
 
-theorem entries_parts (parts : List SysPart) (hf : ∀ p ∈ parts, p.others.lookup statName = none)
-    (ha : ∀ p ∈ parts, NoStat p.attrs) :
-    (walkList (parts.map partDir)).filterMap statEntry
-      = parts.map fun p => (sysName p.name, renderStat p.s p.ext) := by
+theorem entries_parts (nr : Option (Nat × Nat)) (parts : List SysPart)
+    (hf : ∀ p ∈ parts, p.others.lookup statName = none) (ha : ∀ p ∈ parts, NoStat p.attrs) :
+    (walkList (parts.map partDir)).filterMap (statEntry nr)
+      = parts.map fun p => (mapName nr (sysName p.name), renderStat p.s p.ext) := by
   induction parts with
   | nil => simp [walkList_nil]
   | cons p r ih =>
     simp only [List.map_cons, walkList_cons, List.filterMap_append]
-    rw [entries_part p (hf p (by simp)) (ha p (by simp)),
+    rw [entries_part nr p (hf p (by simp)) (ha p (by simp)),
       ih (fun q hq => hf q (by simp [hq])) (fun q hq => ha q (by simp [hq]))]
     rfl
 
 /-- the device entries of one disk directory, in `os.walk` order -/
-def diskEntries (d : SysDisk) : List (Bytes × Bytes) :=
-  (sysName d.name, renderStat d.s d.ext) :: d.parts.map fun p => (sysName p.name, renderStat p.s p.ext)
+def diskEntries (nr : Option (Nat × Nat)) (d : SysDisk) : List (Bytes × Bytes) :=
+  (mapName nr (sysName d.name), renderStat d.s d.ext) ::
+    d.parts.map fun p => (mapName nr (sysName p.name), renderStat p.s p.ext)
 
-theorem entries_disk (d : SysDisk) (wf : SysDiskWF d) :
-    (diskDir d).walk.filterMap statEntry = diskEntries d := by
-  rw [diskDir, walk_node, List.filterMap_cons, statEntry_stat _ _ _ wf.files, walkList_append,
-    List.filterMap_append, entries_parts d.parts wf.partFiles wf.partAttrs, entries_noStat d.attrs wf.attrs]
+theorem entries_disk (nr : Option (Nat × Nat)) (d : SysDisk) (wf : SysDiskWF d) :
+    (diskDir d).walk.filterMap (statEntry nr) = diskEntries nr d := by
+  rw [diskDir, walk_node, List.filterMap_cons, statEntry_stat nr _ _ _ wf.files, walkList_append,
+    List.filterMap_append, entries_parts nr d.parts wf.partFiles wf.partAttrs, entries_noStat nr d.attrs wf.attrs]
   simp [diskEntries]
 
-theorem sysfsEntries_render (disks : List SysDisk) (wf : ∀ d ∈ disks, SysDiskWF d) :
-    sysfsEntries sysfsCfg (renderSysfs disks) = disks.flatMap diskEntries := by
-  show (walkList (disks.map diskDir)).filterMap statEntry = _
+theorem sysfsEntries_render (nr : Option (Nat × Nat)) (disks : List SysDisk) (wf : ∀ d ∈ disks, SysDiskWF d) :
+    sysfsEntries (sysfsCfgWith nr) (renderSysfs disks) = disks.flatMap (diskEntries nr) := by
+  show (walkList (disks.map diskDir)).filterMap (statEntry nr) = _
   induction disks with
   | nil => simp [walkList_nil]
   | cons d r ih =>
     rw [List.map_cons, walkList_cons, List.filterMap_append, List.flatMap_cons,
-      entries_disk d (wf d (by simp)), ih (fun x hx => wf x (by simp [hx]))]
+      entries_disk nr d (wf d (by simp)), ih (fun x hx => wf x (by simp [hx]))]
 
-theorem diskEntries_devs (disks : List SysDisk) :
-    disks.flatMap diskEntries = (sysfsNamed (sysDevs disks)).map fun d => (d.name, statText d.stat) := by
+/-- the devices as `read_sysfs` names them: the directory name (`/` → `!`), then the code's own
+    `.replace(…)` if it has one -/
+def namedBy (nr : Option (Nat × Nat)) (devs : List Dev) : List Dev :=
+  devs.map fun d => { d with name := mapName nr (sysName d.name) }
+
+theorem namedBy_none (devs : List Dev) : namedBy none devs = sysfsNamed devs := rfl
+
+theorem diskEntries_devs (nr : Option (Nat × Nat)) (disks : List SysDisk) :
+    disks.flatMap (diskEntries nr) = (namedBy nr (sysDevs disks)).map fun d => (d.name, statText d.stat) := by
   induction disks with
   | nil => rfl
   | cons d r ih =>
-    have hr : sysfsNamed (sysDevs (d :: r)) = sysfsNamed d.devs ++ sysfsNamed (sysDevs r) := by
-      simp [sysfsNamed, sysDevs]
+    have hr : namedBy nr (sysDevs (d :: r)) = namedBy nr d.devs ++ namedBy nr (sysDevs r) := by
+      simp [namedBy, sysDevs]
     rw [List.flatMap_cons, ih, hr, List.map_append]
     congr 1
-    simp [diskEntries, sysfsNamed, SysDisk.devs, statText, List.map_map, Function.comp_def]
+    simp [diskEntries, namedBy, SysDisk.devs, statText, List.map_map, Function.comp_def]
 
-theorem sysDevs_full (disks : List SysDisk) : ∀ x ∈ sysfsNamed (sysDevs disks), ∃ s ext, x.stat = .full s ext := by
+theorem sysDevs_full (nr : Option (Nat × Nat)) (disks : List SysDisk) :
+    ∀ x ∈ namedBy nr (sysDevs disks), ∃ s ext, x.stat = .full s ext := by
   intro x hx
-  simp only [sysfsNamed, sysDevs, SysDisk.devs, List.mem_map, List.mem_flatMap, List.mem_cons] at hx
+  simp only [namedBy, sysDevs, SysDisk.devs, List.mem_map, List.mem_flatMap, List.mem_cons] at hx
   obtain ⟨y, ⟨d, _, hy⟩, rfl⟩ := hx
   rcases hy with rfl | ⟨p, _, rfl⟩
   · exact ⟨_, _, rfl⟩
@@ -235,9 +247,9 @@ theorem sysDevs_full (disks : List SysDisk) : ∀ x ∈ sysfsNamed (sysDevs disk
 
 /-! ### the loop over the entries -/
 
-theorem sysfsFold_map (devs : List Dev) (st : Bytes → Bool) (per : Bool)
+theorem sysfsFold_map (nr : Option (Nat × Nat)) (devs : List Dev) (st : Bytes → Bool) (per : Bool)
     (hf : ∀ x ∈ devs, ∃ s ext, x.stat = .full s ext) (d0 : Dict) :
-    sysfsFold diskCfg sysfsCfg st per d0 (devs.map fun d => (d.name, statText d.stat))
+    sysfsFold diskCfg (sysfsCfgWith nr) st per d0 (devs.map fun d => (d.name, statText d.stat))
       = .ok (((devs.filter fun x => !(diskCfg.skipPartitions && !per && !st x.name)).map
             fun d => (d.name, vals9 d.stat)).foldl (fun d kv => d.set kv.1 kv.2) d0) := by
   induction devs generalizing d0 with
@@ -245,7 +257,7 @@ theorem sysfsFold_map (devs : List Dev) (st : Bytes → Bool) (per : Bool)
   | cons x r ih =>
     have ihr := ih (fun y hy => hf y (by simp [hy]))
     obtain ⟨s, ext, hs⟩ := hf x (by simp)
-    have hx : (sysfsStat sysfsCfg diskCfg.univNl (statText x.stat)).bind (storeEntry diskCfg)
+    have hx : (sysfsStat (sysfsCfgWith nr) diskCfg.univNl (statText x.stat)).bind (storeEntry diskCfg)
         = .ok (vals9 x.stat) := by
       rw [hs]; exact sysfsStat_render _ s ext
     simp only [List.map_cons, sysfsFold, hx]
@@ -337,15 +349,45 @@ structure SysWF (disks : List SysDisk) : Prop where
   dirs : ∀ d ∈ disks, SysDiskWF d
   names : NamesWF (sysDevs disks)
 
-theorem namesWF_sysfsNamed (devs : List Dev) (wf : NamesWF devs) : NamesWF (sysfsNamed devs) := by
+/-- the code's renaming is undone by the kernel's `/` → `!`: true for no renaming and for `!` → `/` -/
+def NameOk (nr : Option (Nat × Nat)) : Prop := ∀ n, sysName (mapName nr (sysName n)) = sysName n
+
+theorem nameOk_none : NameOk none := fun n => sysName_idem n
+
+theorem nameOk_unbang : NameOk (some (33, 47)) := by
+  intro n
+  unfold sysName mapName
+  simp only [List.map_map]
+  apply List.map_congr_left
+  intro c _
+  simp only [Function.comp]
+  split <;> split <;> simp_all
+
+theorem nameOk_of (nr : Option (Nat × Nat)) (h : nr = none ∨ nr = some (33, 47)) : NameOk nr := by
+  rcases h with rfl | rfl
+  · exact nameOk_none
+  · exact nameOk_unbang
+
+theorem namesWF_namedBy (nr : Option (Nat × Nat)) (hn : NameOk nr) (devs : List Dev) (wf : NamesWF devs) :
+    NamesWF (namedBy nr devs) := by
   refine ⟨?_, ?_⟩
-  · have : ((sysfsNamed devs).map fun d => sysName d.name) = devs.map fun d => sysName d.name := by
-      simp [sysfsNamed, List.map_map, Function.comp_def, sysName_idem]
+  · have : ((namedBy nr devs).map fun d => sysName d.name) = devs.map fun d => sysName d.name := by
+      simp [namedBy, List.map_map, Function.comp_def, hn _]
     rw [this]; exact wf.nodup
   · intro d hd
-    simp only [sysfsNamed, List.mem_map] at hd
+    simp only [namedBy, List.mem_map] at hd
     obtain ⟨x, hx, rfl⟩ := hd
-    simpa [sysName_idem] using wf.notDot x hx
+    simpa [hn _] using wf.notDot x hx
+
+theorem sysBlock_namedBy (nr : Option (Nat × Nat)) (hn : NameOk nr) (devs : List Dev) :
+    sysBlock (namedBy nr devs) = sysBlock (sysfsNamed devs) := by
+  induction devs with
+  | nil => rfl
+  | cons d r ih =>
+    simp only [sysBlock, namedBy, sysfsNamed, List.map_cons, List.filter_cons] at ih ⊢
+    split
+    · simp [hn _, sysName_idem, ih]
+    · simpa using ih
 
 theorem sysBlock_parts (maj : Nat) (parts : List SysPart) :
     sysBlock (sysfsNamed (parts.map fun p => (⟨maj, p.minor, p.name, true, .full p.s p.ext⟩ : Dev))) = [] := by
@@ -385,21 +427,58 @@ theorem sysBlock_render (disks : List SysDisk) :
     simp [renderSysfs, diskDir, SysDir.name]
 
 /-- **`read_sysfs` + aggregation loop** over a kernel-shaped tree, `/proc/diskstats` absent -/
-theorem sysfsPlatform_render (disks : List SysDisk) (wf : SysWF disks) (per : Bool) :
-    diskPlatformW diskCfg sysfsCfg ⟨none, some (renderSysfs disks)⟩ per diskSourceOrder
-      = .ok ((if per then sysfsNamed (sysDevs disks) else wholeDisks (sysfsNamed (sysDevs disks))).map
+theorem sysfsPlatform_render (nr : Option (Nat × Nat)) (hn : NameOk nr) (disks : List SysDisk)
+    (wf : SysWF disks) (per : Bool) :
+    diskPlatformW diskCfg (sysfsCfgWith nr) ⟨none, some (renderSysfs disks)⟩ per diskSourceOrder
+      = .ok ((if per then namedBy nr (sysDevs disks) else wholeDisks (namedBy nr (sysDevs disks))).map
           fun d => (d.name, vals9 d.stat)) := by
   have hsrc : diskSourceOrder = ["read_procfs", "read_sysfs"] := by decide
   have hst : storageW diskCfg ⟨none, some (renderSysfs disks)⟩
-      = isStorageDevice diskCfg (sysBlock (sysfsNamed (sysDevs disks))) := by
+      = isStorageDevice diskCfg (sysBlock (namedBy nr (sysDevs disks))) := by
     funext n
     simp only [storageW]
-    rw [sysBlock_render]
+    rw [sysBlock_render, sysBlock_namedBy nr hn]
   rw [hsrc]
   simp only [diskPlatformW, if_true, String.reduceEq, if_false, hst]
-  rw [sysfsEntries_render disks wf.dirs, diskEntries_devs,
-    sysfsFold_map _ _ per (sysDevs_full disks) [],
-    fold_result _ (namesWF_sysfsNamed _ wf.names) per]
+  rw [sysfsEntries_render nr disks wf.dirs, diskEntries_devs,
+    sysfsFold_map nr _ _ per (sysDevs_full nr disks) [],
+    fold_result _ (namesWF_namedBy nr hn _ wf.names) per]
+
+theorem sysName_id (n : Bytes) (h : 47 ∉ n) : sysName n = n := by
+  unfold sysName
+  induction n with
+  | nil => rfl
+  | cons c r ih =>
+    have hc : c ≠ 47 := fun e => h (by simp [e])
+    simp only [List.map_cons, hc, if_false]
+    rw [ih (fun m => h (by simp [m]))]
+
+theorem sysfsNamed_id (devs : List Dev) (h : ∀ d ∈ devs, 47 ∉ d.name) : sysfsNamed devs = devs := by
+  induction devs with
+  | nil => rfl
+  | cons d r ih =>
+    rw [sysfsNamed_cons, sysName_id d.name (h d (by simp)), ih (fun x hx => h x (by simp [hx]))]
+
+/-- `!` → `/` undoes the kernel's `/` → `!` on a name that has no `!` of its own -/
+theorem unbang_sysName (n : Bytes) (h : 33 ∉ n) : mapName (some (33, 47)) (sysName n) = n := by
+  unfold sysName mapName
+  induction n with
+  | nil => rfl
+  | cons c r ih =>
+    have hc : c ≠ 33 := fun e => h (by simp [e])
+    have := ih (fun m => h (by simp [m]))
+    simp only [List.map_map, List.map_cons] at this ⊢
+    rw [this]
+    congr 1
+    split <;> simp_all
+
+theorem namedBy_unbang (devs : List Dev) (h : ∀ d ∈ devs, 33 ∉ d.name) : namedBy (some (33, 47)) devs = devs := by
+  induction devs with
+  | nil => rfl
+  | cons d r ih =>
+    have := ih (fun x hx => h x (by simp [hx]))
+    simp only [namedBy, List.map_cons] at this ⊢
+    rw [this, unbang_sysName d.name (h d (by simp))]
 
 /-! ### the front end over the raw dict (either source) -/
 
